@@ -168,6 +168,11 @@ func propC20(c *ctx) error {
 						args[a], vals[a], isLit[a] = text, s, true
 					}
 				}
+				// the last argument may be a slice spread (f('msgid', more...)): one more argument expression, not a literal
+				if nargs >= 1 && r.p(12) {
+					args, vals, isLit = append(args, "more..."), append(vals, ""), append(isLit, false)
+					nargs++
+				}
 				// repeated occurrences of one call (every occurrence must be referenced)
 				if len(prevCalls) > 0 && r.p(35) {
 					pc := prevCalls[r.n(len(prevCalls))]
@@ -283,7 +288,7 @@ func propC20(c *ctx) error {
 			args []string
 		}
 		var recorded []rcall
-		data := map[string]any{"name": "nm", "a": "a"}
+		data := map[string]any{"name": "nm", "a": "a", "more": []any{"m1", "m2", "m3"}}
 		recv := map[string]any{}
 		for _, kw := range append(append([]kwSpec{}, kws...), kwSpec{name: "other"}, kwSpec{name: "T"}) {
 			name := kw.name
